@@ -736,7 +736,7 @@ def _split_method_chain(expr):
         m = re.match(r'([A-Za-z_]\w*)\s*(::<[^>]*>)?\s*\(', s_)
         o = m.end() - 1
         c = match_brace(s_, o)
-        calls.append((m.group(1), s_[o + 1:c].strip()))
+        calls.append((m.group(1), s_[o + 1:c].strip().rstrip(',').strip()))
     return head, calls
 
 
